@@ -2,6 +2,7 @@
 from ..gen import Gen
 from ..unit import run_unit
 from ..units.step import Newton, cross_solver_oracle
+from ..units.linsolve import LinSolve
 
 PROP_FILES = ["props/C14.v"]
 TECHNIQUE = "Coq proof + exact differential correspondence"
@@ -9,6 +10,7 @@ TECHNIQUE = "Coq proof + exact differential correspondence"
 
 def run(rep, tier, seed, scratch):
     g = Gen(seed)
-    for u in (Newton(),):
+    # (LinSolve: every linear-solver choice returns the solution of the system it is handed, or raises)
+    for u in (Newton(), LinSolve()):
         run_unit(rep, u, u.gen(g, tier), scratch)
     cross_solver_oracle(rep, tier, seed)
